@@ -125,7 +125,11 @@ def origin(fn, x, binding=None, depth=0):
         return x
     k = x.get('k')
     if k == 'elem':
-        return origin(fn, fn.elem(x['b'], x['i']), binding, depth + 1)
+        r = origin(fn, fn.elem(x['b'], x['i']), binding, depth + 1)
+        if isinstance(r, dict):
+            r = dict(r)
+            r['_at'] = (x['b'], x['i'])
+        return r
     if k == 'ref':
         defs = defs_of(fn)
         dk = x.get('dk')
